@@ -17,7 +17,7 @@ func main() {
 	r.Assume("effective expiry is the persisted whole second (DESIGN O-1); the instant returned by LockOutput is checked separately to equal now+duration", "leasing a credited output already spent by a confirmed transaction is not asserted either way", "ListLockedOutputs is compared only for outputs of currently known transactions")
 	n := r.N(150, 3000)
 	cfg := ledger.Config{MinSteps: 30, MaxSteps: r.N(100, 160), Leases: true, Reopen: true}
-	dir, _ := os.MkdirTemp("", "c12")
+	dir := r.TempDir("c12")
 	defer os.RemoveAll(dir)
 	r.Parallel("history", n, evid.Workers(), func(i int, cs int64) {
 		res := ledger.RunHistory(cfg, cs, dir)
